@@ -911,10 +911,9 @@ func (k *Kernel) addFuturePrevote(
 	// but it is possible that it changed from future to current
 	// before the kernel processed the request.
 	if _, _, vStatus := s.FindView(req.H, req.R, "(*Kernel).addFuturePrevote"); vStatus != ViewFuture {
-		panic(fmt.Errorf(
-			"TODO: handle addFuturePrevote when the view has changed from future to %s",
-			vStatus,
-		))
+		// The view shifted between the mirror's lookup and this request,
+		// so the votes have to go through the regular lookup again.
+		return AddVoteConflict
 	}
 
 	// It's still a future view.
@@ -1019,10 +1018,9 @@ func (k *Kernel) addFuturePrecommit(
 	// but it is possible that it changed from future to current
 	// before the kernel processed the request.
 	if _, _, vStatus := s.FindView(req.H, req.R, "(*Kernel).addFuturePrecommit"); vStatus != ViewFuture {
-		panic(fmt.Errorf(
-			"TODO: handle addFuturePrecommit when the view has changed from future to %s",
-			vStatus,
-		))
+		// The view shifted between the mirror's lookup and this request,
+		// so the votes have to go through the regular lookup again.
+		return AddVoteConflict
 	}
 
 	// It's still a future view.
